@@ -5,8 +5,6 @@ use std::{
     num::NonZeroUsize,
 };
 
-use flate2::bufread::MultiGzDecoder;
-
 use noodles_bgzf as bgzf;
 
 use crate::{input, Input};
@@ -55,18 +53,16 @@ impl Builder {
         self.build_from_reader(reader)
     }
 
-    fn build_from_reader<R>(self, mut reader: R) -> io::Result<super::DynReader>
+    fn build_from_reader<R>(self, reader: R) -> io::Result<super::DynReader>
     where
         R: 'static + io::BufRead,
     {
+        // Detection must not depend on how many bytes the reader happens to have buffered (e.g. a
+        // short first read from a pipe), so the magic numbers are read explicitly and chained back
+        let (magic, reader) = peek(reader, CompressionMethod::GZIP_MAGIC_NUMBER.len())?;
         let compression_method = match self.compression_method {
             Some(compression_method) => compression_method,
-            None => CompressionMethod::detect(&mut reader)?,
-        };
-
-        let format = match self.format {
-            Some(format) => format,
-            None => Format::detect(&mut reader, compression_method)?,
+            None => CompressionMethod::detect(&magic),
         };
 
         let reader: super::DynReader = match compression_method {
@@ -75,15 +71,19 @@ impl Builder {
                     .set_worker_count(self.threads)
                     .build_from_reader(reader);
 
-                match format {
-                    Format::Bcf => super::bcf::Reader::new(bgzf_reader).map(Box::new)?,
-                    Format::Vcf => super::vcf::Reader::new(bgzf_reader).map(Box::new)?,
+                let (magic, reader) = peek(bgzf_reader, Format::BCF_MAGIC_NUMBER.len())?;
+                match self.format.unwrap_or_else(|| Format::detect(&magic)) {
+                    Format::Bcf => super::bcf::Reader::new(reader).map(Box::new)?,
+                    Format::Vcf => super::vcf::Reader::new(reader).map(Box::new)?,
                 }
             }
-            None => match format {
-                Format::Bcf => super::bcf::Reader::new(reader).map(Box::new)?,
-                Format::Vcf => super::vcf::Reader::new(reader).map(Box::new)?,
-            },
+            None => {
+                let (magic, reader) = peek(reader, Format::BCF_MAGIC_NUMBER.len())?;
+                match self.format.unwrap_or_else(|| Format::detect(&magic)) {
+                    Format::Bcf => super::bcf::Reader::new(reader).map(Box::new)?,
+                    Format::Vcf => super::vcf::Reader::new(reader).map(Box::new)?,
+                }
+            }
         };
 
         Ok(reader)
@@ -132,34 +132,14 @@ pub enum Format {
 }
 
 impl Format {
-    fn detect<R>(
-        reader: &mut R,
-        compression_method: Option<CompressionMethod>,
-    ) -> io::Result<Format>
-    where
-        R: io::BufRead,
-    {
-        const BCF_MAGIC_NUMBER: [u8; 3] = *b"BCF";
+    const BCF_MAGIC_NUMBER: [u8; 3] = *b"BCF";
 
-        let src = reader.fill_buf()?;
-
-        if let Some(compression_method) = compression_method {
-            if compression_method == CompressionMethod::Bgzf {
-                let mut decoder = MultiGzDecoder::new(src);
-                let mut buf = [0; BCF_MAGIC_NUMBER.len()];
-                decoder.read_exact(&mut buf)?;
-
-                if buf == BCF_MAGIC_NUMBER {
-                    return Ok(Format::Bcf);
-                }
-            }
-        } else if let Some(buf) = src.get(..BCF_MAGIC_NUMBER.len()) {
-            if buf == BCF_MAGIC_NUMBER {
-                return Ok(Format::Bcf);
-            }
+    fn detect(magic: &[u8]) -> Format {
+        if magic == Self::BCF_MAGIC_NUMBER {
+            Format::Bcf
+        } else {
+            Format::Vcf
         }
-
-        Ok(Format::Vcf)
     }
 }
 
@@ -171,20 +151,21 @@ pub enum CompressionMethod {
 }
 
 impl CompressionMethod {
-    fn detect<R>(reader: &mut R) -> io::Result<Option<Self>>
-    where
-        R: io::BufRead,
-    {
-        const GZIP_MAGIC_NUMBER: [u8; 2] = [0x1f, 0x8b];
+    const GZIP_MAGIC_NUMBER: [u8; 2] = [0x1f, 0x8b];
 
-        let src = reader.fill_buf()?;
-
-        if let Some(buf) = src.get(..GZIP_MAGIC_NUMBER.len()) {
-            if buf == GZIP_MAGIC_NUMBER {
-                return Ok(Some(CompressionMethod::Bgzf));
-            }
-        }
-
-        Ok(None)
+    fn detect(magic: &[u8]) -> Option<Self> {
+        (magic == Self::GZIP_MAGIC_NUMBER).then_some(CompressionMethod::Bgzf)
     }
+}
+
+/// Reads up to the first `n` bytes of a reader, and returns them along with a reader that yields
+/// the full stream, including those bytes.
+fn peek<R>(mut reader: R, n: usize) -> io::Result<(Vec<u8>, impl io::BufRead)>
+where
+    R: io::BufRead,
+{
+    let mut prefix = Vec::with_capacity(n);
+    reader.by_ref().take(n as u64).read_to_end(&mut prefix)?;
+
+    Ok((prefix.clone(), io::Cursor::new(prefix).chain(reader)))
 }
